@@ -83,6 +83,8 @@ static void run_script(Tape &t, Ctx &c, int ver, const Suite &su, bool c2s, std:
     for (size_t i = 0; i < lens.size(); i++) {
         Bytes m = msg_bytes((int) i, lens[i]); std::vector<Bytes> u;
         if (!send_one(*s.snd, m, u, s.dtls)) { if (lens[i] == 0 || lens[i] > 16384 || (s.dtls && lens[i] > 900)) { c.count("encode-refused-len0-or-oversize"); continue; } VF_FAIL("harness-send-failed", "sender refused %zu bytes; %s", lens[i], desc.c_str()); }
+        // DTLS: one submitted datagram is one record or a refusal - never two records (the receiver would be handed two datagrams)
+        if (u.size() != 1 && s.dtls) VF_FAIL("dtls-datagram-split-into-several-records", "a %zu-byte message came out as %zu DTLS records (%zu + %zu... bytes on the wire); %s", lens[i], u.size(), u[0].size(), u.size() > 1 ? u[1].size() : 0, desc.c_str());
         if (u.size() != 1) { c.count("multi-record-message"); throw Discard{}; }
         O.push_back(u[0]); pt.push_back(m);
     }
@@ -186,12 +188,47 @@ static void run_script(Tape &t, Ctx &c, int ver, const Suite &su, bool c2s, std:
 
 static const std::vector<size_t> LENS = { 1, 15, 16, 17, 255, 256, 1000, 16383, 16384, 0, 2, 31, 32, 33, 47, 48, 49 };
 
+// Bulk writes (TLS): one matrixSslEncodeToOutdata call with more data than fits one record - the library fragments it itself (at 16384
+// bytes, or at the max_fragment_length the client negotiated).  The delivered stream must still be exactly what was submitted; with one
+// bit flipped somewhere in the ciphertext it must be a prefix of it and the session must end.
+static void bulk(Tape &t, Ctx &c, int ver, const Suite &su, bool c2s) {
+    static const int MFL[] = { 0, 0, 512, 1024, 2048, 4096 }; int mfl = ver == TLS13 ? 0 : MFL[t.below(6)];
+    size_t frag = mfl ? (size_t) mfl : 16384;
+    static const int MULT[] = { 1, 2, 3 }; size_t n1 = frag * MULT[t.below(3)] + (size_t) t.pick(std::vector<int>{ 1, 0, 17, 255, (int) frag - 1 });
+    size_t nmsg = 1 + t.below(3); bool flip = t.chance(1, 3); uint64_t fa = t.u32();
+    std::string desc = fmt("bulk %s %s %s max_fragment_length=%d first write=%zu bytes, %zu writes, %s", ver_name(ver), su.name, c2s ? "c->s" : "s->c", mfl, n1, nmsg, flip ? "one bit flipped" : "unedited");
+    c.sample(desc); if (c.verbose) fprintf(stderr, "case: %s\n", desc.c_str());
+    vfh_entropy_reset(4242 + ver * 100 + su.id); vfh_clock_set_ms(1000000);
+    Pair p; Config cc, sc; cc.client = true; sc.client = false; cc.versions = sc.versions = { ver }; cc.suites = { su.id }; cc.auth = sc.auth = su.auth; cc.entropy_stream = 1; sc.entropy_stream = 2;
+    if (mfl) cc.tweak = [mfl](sslSessOpts_t &o) { o.maxFragLen = (short) mfl; };
+    if (p.s.open(sc) < 0 || p.c.open(cc) < 0 || !p.run() || !p.c.alive() || !p.s.alive()) VF_FAIL("harness-handshake-failed", "could not establish %s", desc.c_str());
+    p.run(20); p.c.wire_out.clear(); p.s.wire_out.clear();
+    Endpoint &snd = c2s ? p.c : p.s, &rcv = c2s ? p.s : p.c;
+    Bytes all, wire; size_t nrec = 0;
+    for (size_t i = 0; i < nmsg; i++) { size_t n = i == 0 ? n1 : 1 + t.below(2 * frag); Bytes m = msg_bytes(40 + (int) i, n);
+        int rc = snd.send(m, 0); VF_CHECK(rc >= 0, "harness-send-failed", "matrixSslEncodeToOutdata refused %zu bytes (rc=%d); %s", n, rc, desc.c_str());
+        all.insert(all.end(), m.begin(), m.end()); Bytes w = snd.take_wire(); nrec += parse_records(w, false).size(); wire.insert(wire.end(), w.begin(), w.end()); }
+    c.count(nrec > nmsg ? "bulk:write-split-into-several-records" : "bulk:one-record-per-write");
+    if (flip && !wire.empty()) { size_t bit = fa % (wire.size() * 8); wire[bit / 8] ^= (uint8_t) (1 << (bit % 8)); }
+    rcv.delivered.clear(); rcv.feed(wire, (size_t) -1, true);
+    bool dead = rcv.failed || rcv.req_close;
+    bool pfx = rcv.delivered.size() <= all.size() && std::equal(rcv.delivered.begin(), rcv.delivered.end(), all.begin());
+    size_t d = 0; while (d < rcv.delivered.size() && d < all.size() && rcv.delivered[d] == all[d]) d++;
+    VF_CHECK(pfx, "delivered-data-beyond-authentic-prefix", "delivered %zu bytes that are not a prefix of the %zu submitted (first difference at offset %zu); %s", rcv.delivered.size(), all.size(), d, desc.c_str());
+    if (!flip) { VF_CHECK(rcv.delivered.size() == all.size(), "authentic-prefix-not-delivered", "delivered %zu of %zu submitted bytes; %s", rcv.delivered.size(), all.size(), desc.c_str());
+        VF_CHECK(!dead, "unedited-stream-killed-session", "unedited bulk stream ended the session rc=%d; %s", rcv.last_rc, desc.c_str()); }
+    else VF_CHECK(dead && rcv.delivered.size() < all.size(), "modified-record-did-not-end-session", "a flipped bit did not end the session (delivered %zu of %zu); %s", rcv.delivered.size(), all.size(), desc.c_str());
+    c.nontrivial(fmt("bulk|%d|%04x|%d|%d|%d", ver, su.id, c2s, mfl, flip));
+}
+
 static void prop(Tape &t, Ctx &c) {
     int ver = (int) t.below(NVER);
     auto cand = suites_for(ver); const Suite su = cand[t.below(cand.size())];
     bool c2s = t.coin();
+    if (!is_dtls(ver) && t.chance(1, 6)) { bulk(t, c, ver, su, c2s); return; }
     size_t nm = 1 + t.below(5); std::vector<size_t> lens;
     for (size_t i = 0; i < nm; i++) lens.push_back(t.chance(1, 3) ? (size_t) t.below(1200) + 1 : LENS[t.below(LENS.size())]);
+    if (is_dtls(ver) && t.chance(1, 4)) lens[t.below(nm)] = 1370 + t.below(80);   // around the default PMTU: accepted whole or refused
     int op = (int) t.below(OP_N); if (is_dtls(ver) && op == OP_CUT_TAIL) op = OP_DROP;
     uint64_t a = t.u32(), b = t.u32(), cc = t.u64();
     size_t chunk = t.chance(1, 2) ? (size_t) -1 : (size_t) t.pick(std::vector<int>{ 1, 2, 5, 13, 64, 1000, 16389 });
